@@ -19,6 +19,21 @@ worker() { k=$1; d=$base$k
   awk -v k=$k -v w=$W 'NF && (NR-1)%w==k' "$list" | while read patch props; do
     [ "$props" = "all" ] && props=$all
     git -C $d/repo checkout -q -- . ; git -C $d/repo clean -fdq source
+    case $patch in
+      mut:*)   # a mechanical mutant (tools/mutate.py): only interesting if the repository's own suite lets it through
+        pdir=${patch#mut:}
+        if ! git -C $d/repo apply $pdir/patch.diff 2>/dev/null; then echo "$patch PATCH-DOES-NOT-APPLY"; continue; fi
+        suite=$(cd $d/repo && CARGO_NET_OFFLINE=true cargo test --workspace --no-fail-fast --offline 2>&1 | grep -E "^test result|^error" | awk '/^error/ {e=1} /^test result/ {f+=$6} END {if (e) print "build-error"; else print f" failed"}')
+        if [ "$suite" != "0 failed" ]; then echo "$patch KILLED-BY-SUITE ($suite)"; continue; fi
+        hit=""
+        for p in $props; do
+          out=$(cd $d/verif && VERIF_REPO=$d/repo ./check $p --tier quick 2>&1)
+          line=$(echo "$out" | grep -E "^(VIOLATION|OK)" | tail -1 | sed "s|$d||g" | cut -c1-110)
+          case "$line" in VIOLATION*) hit="$hit $p";; esac
+        done
+        if [ -n "$hit" ]; then echo "$patch DETECTED-BY$hit"; else echo "$patch SURVIVED $(head -1 $pdir/desc.txt)"; fi
+        continue;;
+    esac
     if ! git -C $d/repo apply $V/$patch/patch.diff 2>/dev/null; then echo "$patch PATCH-DOES-NOT-APPLY"; continue; fi
     for p in $props; do
       out=$(cd $d/verif && VERIF_REPO=$d/repo ./check $p --tier quick 2>&1); rc=$?
